@@ -438,23 +438,54 @@ func (cc *chainCase) viol(key, detail string, wit interface{}) {
 			return comp
 		}
 		after := snapAppCache()
-		empty := run(nil)
-	scan:
-		for i, snap := range append(append([]map[interface{}]interface{}{}, cc.cacheSnaps...), after) {
-			a := run(snap)
-			if dbg != nil {
-				dbg("diagnosis: cache content #%d (%d modules) -> %v gas %s / empty cache -> %v gas %s", i, len(snap), a["verdict"], a["gas-used"], empty["verdict"], empty["gas-used"])
-			}
-			if a == nil || empty == nil {
-				continue
+		same := func(a, b map[string]string) (string, bool) {
+			if a == nil || b == nil {
+				return "", true
 			}
 			for _, k := range append([]string{"verdict"}, components...) {
-				if a[k] != empty[k] {
-					detail = "(" + key + ") " + detail
-					key = "process-cache/wasm-app-cache-changes-block-result"
-					detail += fmt.Sprintf(" [re-executed on replicas reopened from the same bytes: %s differs between the process-wide WASM module cache as it was before one of the executions (%d modules) and an empty one]", k, len(snap))
-					break scan
+				if a[k] != b[k] {
+					return k, false
 				}
+			}
+			return "", true
+		}
+		// A result can be blamed on the cache only if it is reproducible with that cache content (4 of 4
+		// executions agree), reproducible with an empty cache (4 of 4), and the two differ: on a tree whose
+		// execution is plainly non-deterministic this must not swallow the divergence.
+		stable := func(cache map[interface{}]interface{}) map[string]string {
+			first := run(cache)
+			for i := 0; i < 3 && first != nil; i++ {
+				if _, eq := same(first, run(cache)); !eq {
+					return nil
+				}
+			}
+			return first
+		}
+		if empty := stable(nil); empty != nil {
+			snaps := append(append([]map[interface{}]interface{}{}, cc.cacheSnaps...), after)
+			if len(snaps) > 5 {
+				snaps = append(snaps[:4:4], after)
+			}
+			for i, snap := range snaps {
+				a := run(snap)
+				k, eq := same(a, empty)
+				if dbg != nil {
+					dbg("diagnosis: cache content #%d (%d modules) -> %v gas %s / empty cache -> %v gas %s", i, len(snap), a["verdict"], a["gas-used"], empty["verdict"], empty["gas-used"])
+				}
+				if eq {
+					continue
+				}
+				again := true
+				for j := 0; j < 3 && again; j++ {
+					_, again = same(a, run(snap))
+				}
+				if !again {
+					continue
+				}
+				detail = "(" + key + ") " + detail
+				key = "process-cache/wasm-app-cache-changes-block-result"
+				detail += fmt.Sprintf(" [re-executed on replicas reopened from the same bytes: %s differs, reproducibly (4 of 4 executions each), between the process-wide WASM module cache as it was before one of the executions (%d modules) and an empty one]", k, len(snap))
+				break
 			}
 		}
 		restoreAppCache(after)
